@@ -7,6 +7,7 @@
 #include <hgraph/runtime/logger.h>
 #include <hgraph/types/metadata/type_record_registry.h>
 #include <hgraph/util/scope.h>
+#include <hgraph/util/verif_hooks.h>
 
 #include <fmt/chrono.h>
 #include <fmt/format.h>
@@ -51,6 +52,10 @@ namespace hgraph
 
         [[nodiscard]] DateTime current_wall_time() noexcept
         {
+#if defined(HGRAPH_VERIF)
+            return std::chrono::time_point_cast<std::chrono::microseconds>(engine_clock::now()) +
+                   TimeDelta{verif::wall_clock_offset_us.load(std::memory_order_relaxed)};
+#endif
             return std::chrono::time_point_cast<std::chrono::microseconds>(engine_clock::now());
         }
 
@@ -332,10 +337,14 @@ namespace hgraph
         void realtime_mark_push_update_pending_impl(const void *, void *memory)
         {
             auto &state = realtime_storage(memory);
+            HGRAPH_VERIF_POINT(rt_mark_push_pre, &state, 0, 0);
             {
                 std::lock_guard lock{state.mutex};
+                HGRAPH_VERIF_POINT(rt_mark_push_locked, &state, state.stop_requested.load(std::memory_order_acquire),
+                                   state.push_update_pending);
                 if (state.stop_requested.load(std::memory_order_acquire)) { return; }
                 state.push_update_pending = true;
+                HGRAPH_VERIF_POINT(rt_mark_push_set, &state, 1, 0);
             }
             state.condition.notify_all();
         }
@@ -350,9 +359,11 @@ namespace hgraph
         bool realtime_reset_push_update_pending_impl(const void *, void *memory) noexcept
         {
             auto &state = realtime_storage(memory);
+            HGRAPH_VERIF_POINT(rt_reset_push_pre, &state, 0, 0);
             std::lock_guard lock{state.mutex};
             const bool pending = state.push_update_pending;
             state.push_update_pending = false;
+            HGRAPH_VERIF_POINT(rt_reset_push, &state, pending, 0);
             return pending;
         }
 
@@ -383,6 +394,8 @@ namespace hgraph
             const DateTime target     = std::min(next_scheduled_time, state.end_time);
             const DateTime next_cycle = state.evaluation_time + MIN_TD;
 
+            HGRAPH_VERIF_POINT(rt_advance_pre, &state, target.time_since_epoch().count(),
+                               state.evaluation_time.time_since_epoch().count());
             DateTime wall_now = current_wall_time();
             {
                 std::unique_lock lock{state.mutex};
@@ -390,6 +403,8 @@ namespace hgraph
                     return state.push_update_pending ||
                            state.stop_requested.load(std::memory_order_acquire);
                 };
+                HGRAPH_VERIF_POINT(rt_advance_locked, &state, state.push_update_pending,
+                                   state.stop_requested.load(std::memory_order_acquire));
                 // A push delivered while the previous cycle was evaluating is
                 // already pending, so this does not wait at all.
                 while (wall_now < target && !wake_requested())
@@ -397,11 +412,18 @@ namespace hgraph
                     // The predicate overload absorbs spurious wakes. A false
                     // return is the forced slice timeout; it only refreshes
                     // wall_now and loops unless target has become due.
+                    HGRAPH_VERIF_POINT(rt_wait_begin, &state,
+                                       std::min(target - wall_now, state.max_wait_slice).count(),
+                                       wall_now.time_since_epoch().count());
                     const bool wake_requested_before_timeout = state.condition.wait_for(
                         lock,
                         std::min(target - wall_now, state.max_wait_slice),
                         wake_requested);
                     wall_now = current_wall_time();
+                    HGRAPH_VERIF_POINT(rt_wait_end, &state,
+                                       (wake_requested_before_timeout ? 4 : 0) + (state.push_update_pending ? 2 : 0) +
+                                           (state.stop_requested.load(std::memory_order_acquire) ? 1 : 0),
+                                       wall_now.time_since_epoch().count());
                     if (wake_requested_before_timeout) { break; }
                 }
             }
@@ -425,6 +447,8 @@ namespace hgraph
             // `target` is `start_time`, which is already the evaluation time,
             // and that cycle still has to run.
             const DateTime next = std::min(target, wall_or_next_cycle);
+            HGRAPH_VERIF_POINT(rt_compute_next, &state, next.time_since_epoch().count(),
+                               wall_now.time_since_epoch().count());
             if (wall_now >= state.end_time && next <= next_cycle &&
                 state.consecutive_immediate_cycles >= max_immediate_drain_cycles)
             {
@@ -435,6 +459,8 @@ namespace hgraph
                 // retry loop) and would starve the end_time bound indefinitely
                 // (see execution_layer.rst, end-of-run enforcement). The
                 // counter is maintained by the run loop.
+                HGRAPH_VERIF_POINT(rt_drain_cut, &state, state.end_time.time_since_epoch().count(),
+                                   state.consecutive_immediate_cycles);
                 state.set_evaluation_time(state.end_time);
                 return state.end_time;
             }
@@ -697,9 +723,11 @@ namespace hgraph
         void realtime_request_stop_impl(const void *, void *memory) noexcept
         {
             auto &state = realtime_storage(memory);
+            HGRAPH_VERIF_POINT(rt_stop_pre, &state, 0, 0);
             {
                 std::lock_guard lock{state.mutex};
                 state.stop_requested.store(true, std::memory_order_release);
+                HGRAPH_VERIF_POINT(rt_stop, &state, 0, 0);
             }
             state.condition.notify_all();
         }
